@@ -73,6 +73,15 @@ CHECKS["C16"] = (
     "in known_findings.json (pinned StereoMolGraph hash values forbid a repair).",
     "DESIGN.md 5/C16")
 
+CHECKS["C05"] = (
+    ENUM + " (set of all valid bijections from backtracking over atom bijections)",
+    "For all ordered pairs of complete small universes and every label mode / stereo flag combination the full list yielded "
+    "by vf2pp_all_isomorphisms is compared as a set with the set of valid bijections found by an independent backtracking "
+    "search: no invalid mapping, none missing, none twice; symmetric graphs up to 14 atoms against themselves and relabelled "
+    "copies; topological_symmetry_number against the number of stereo-preserving automorphisms.",
+    "Trusted: refiso/refstereo; full-graph mode; bond roles are not part of the function's notion of structure.",
+    "DESIGN.md 5/C05")
+
 NOT_YET = {
 }
 
